@@ -362,6 +362,14 @@ impl Check for C06 {
                     ("statement after continue", "    loop v < 3 do\n        v += 1\n        continue\n        v = 9\n    end\n", None),
                     ("statement after <!>", "    if v > 5 do\n        <!>\n        v = 2\n    end\n", None),
                     ("two rets", "    h :: fn -> int do\n        ret 1\n        ret 2\n    end\n    print(h())\n", Some("statement_after_ret_in_same_block")),
+                    // jumps that would leave a function literal (the compiler must reject them; if it ever
+                    // accepts one the emitted `break` / `goto` cannot load)
+                    ("break in a pu closure inside a loop", "    loop v < 3 do\n        v += 1\n        g :: pu n: int -> int do\n            break\n            n\n        end\n    end\n", None),
+                    ("continue in a pu closure inside a loop", "    loop v < 3 do\n        v += 1\n        g :: pu n: int -> int do\n            if n > 0 do\n                continue\n            end\n            n\n        end\n    end\n", None),
+                    ("break in an fn closure inside a loop", "    loop v < 3 do\n        v += 1\n        g :: fn do\n            break\n        end\n    end\n", None),
+                    ("continue in a lambda argument inside a loop", "    loop v < 3 do\n        v += 1\n        list.for_each([1], fn e do\n            continue\n        end)\n    end\n", None),
+                    ("break in a method of a blob built inside a loop", "    loop v < 3 do\n        v += 1\n        q := P { x: v }\n        h :: fn do\n            if t do\n                break\n            end\n        end\n    end\n", None),
+                    ("break in a closure two levels below a loop", "    loop v < 3 do\n        v += 1\n        g :: fn do\n            h :: pu -> int do\n                break\n                1\n            end\n        end\n    end\n", None),
                     // dead code that opens blocks of its own
                     ("closure defined and called after ret", "    h :: fn -> int do\n        ret 1\n        g :: fn -> int do 2 end\n        g()\n    end\n    print(h())\n", None),
                     ("closure defined after ret in an if inside a loop", "    loop v < 3 do\n        v += 1\n        if t do\n            continue\n            g :: fn n: int do\n                print(n)\n            end\n            g(v)\n        end\n    end\n", None),
